@@ -10,6 +10,7 @@ import (
 	"github.com/go-logr/logr"
 	"github.com/wrgl/wrgl/pkg/objects"
 	"github.com/wrgl/wrgl/pkg/progress"
+	"github.com/wrgl/wrgl/pkg/vhook"
 )
 
 func strSliceEqual(s1, s2 []string) bool {
@@ -97,6 +98,7 @@ func (d *Differ) diffRows(diffChan chan<- *objects.Diff, pt *progress.SingleTrac
 		if row2 != nil {
 			// TODO: build a way to debug diff process
 			if d.emitUnchangedRow || !colsEqual || !bytes.Equal(row1, row2) {
+				vhook.Yield("diff.send")
 				diffChan <- &objects.Diff{
 					PK:        pk,
 					Sum:       row1,
@@ -106,6 +108,7 @@ func (d *Differ) diffRows(diffChan chan<- *objects.Diff, pt *progress.SingleTrac
 				}
 			}
 		} else {
+			vhook.Yield("diff.send")
 			diffChan <- &objects.Diff{
 				PK:     pk,
 				Sum:    row1,
@@ -120,6 +123,7 @@ func (d *Differ) diffRows(diffChan chan<- *objects.Diff, pt *progress.SingleTrac
 		current++
 		pt.SetCurrent(current)
 		if row2 == nil {
+			vhook.Yield("diff.send")
 			diffChan <- &objects.Diff{
 				PK:        pk,
 				OldSum:    row1,
